@@ -30,7 +30,10 @@ Effective(g) ==
       pse |-> IF glr THEN FALSE ELSE g.pse,
       ms |-> Tri(g.ms, TRUE), lm |-> Tri(g.lm, TRUE), go |-> Tri(g.go, go0),
       gen |-> g.gen, lexer |-> g.lexer, builder |-> g.builder, loc_info |-> g.loc_info,
-      fancy |-> g.fancy, partial |-> g.partial, skip_ws |-> g.skip_ws, actions |-> g.actions]
+      fancy |-> g.fancy, partial |-> g.partial, skip_ws |-> g.skip_ws, actions |-> g.actions,
+      \* the input type of a custom lexer is written into the parser; --dot and --print-table
+      \* write other things and must not change the parser or the actions
+      input |-> g.input]
 
 \* the set of pairs of events that must agree but do not
 Disagreements(E) ==
